@@ -793,7 +793,12 @@ def check_single(ctx, name, sub, form, out_stacked):
     fn, args, kw = e['build'](np.random.RandomState(sub), form)
     args = [first_item(a) if i in e['single'] else a for i, a in enumerate(args)]
     out1 = ctx.sut(fn, *args, **kw)
-    r = close_forms(out1, first_row(out_stacked))
+    if name == 'inertial_sensor.EstimationModel.output_matrix' and not fn.__self__.scale_misal_modelled:
+        # without scale/misalignment states the matrix does not depend on the readings and is returned unstacked for any input
+        # (thorough-tier false alarm of this harness, DESIGN 9.3): the two results are compared as they are
+        r = close_forms(out1, out_stacked)
+    else:
+        r = close_forms(out1, first_row(out_stacked))
     ctx.check(r is None, f'single_form_disagrees:{name}', lambda: f'{name}: one item vs row 0 of the stack (form {form}): {r}')
     ctx.label('single_vs_stacked_checked')
 
